@@ -1,0 +1,124 @@
+//go:build verif
+// +build verif
+
+// Read-only exports for the verification harness (property C17).  Add-only: nothing here is
+// referenced by the package itself and no existing line is changed.
+
+package cache
+
+import (
+	"sync/atomic"
+)
+
+// VerifNodeInfo is a snapshot of one 'cache node'.
+type VerifNodeInfo struct {
+	NS, Key  uint64
+	Ref      int32
+	Size     int
+	HasValue bool
+	Value    Value
+	LRU      int // 0: CacheData == nil, 1: linked in the LRU list, 2: banned, -1: cacher is not the built-in lru
+}
+
+func verifLRUState(c Cacher, n *Node) int {
+	l, ok := c.(*lru)
+	if !ok {
+		if c == nil {
+			return 0
+		}
+		return -1
+	}
+	l.mu.Lock()
+	defer l.mu.Unlock()
+	rn := (*lruNode)(n.CacheData)
+	if rn == nil {
+		return 0
+	}
+	if rn.ban {
+		return 2
+	}
+	return 1
+}
+
+func verifNodeInfo(c Cacher, n *Node) VerifNodeInfo {
+	n.mu.Lock()
+	size, value := n.size, n.value
+	n.mu.Unlock()
+	return VerifNodeInfo{NS: n.ns, Key: n.key, Ref: atomic.LoadInt32(&n.ref), Size: size,
+		HasValue: value != nil, Value: value, LRU: verifLRUState(c, n)}
+}
+
+// VerifNodes returns a snapshot of every node linked in the hash table, sorted by (ns, key),
+// or ok=false when the cache is closed.  Meant for quiescent points.
+func (r *Cache) VerifNodes() (infos []VerifNodeInfo, ok bool) {
+	r.mu.RLock()
+	defer r.mu.RUnlock()
+	if r.closed {
+		return nil, false
+	}
+	var all []*Node
+	r.enumerateNodesWithCB(func(nodes []*Node) { all = nodes })
+	ns := mNodes(append([]*Node(nil), all...))
+	ns.sort()
+	for _, n := range ns {
+		infos = append(infos, verifNodeInfo(r.cacher, n))
+	}
+	return infos, true
+}
+
+// VerifHandleNode returns the snapshot of the node a live handle points to (ok=false for a
+// released or nil handle).
+func (r *Cache) VerifHandleNode(h *Handle) (info VerifNodeInfo, ok bool) {
+	if h == nil {
+		return
+	}
+	n := (*Node)(atomic.LoadPointer(&h.n))
+	if n == nil {
+		return
+	}
+	return verifNodeInfo(r.cacher, n), true
+}
+
+// VerifBuckets returns the number of buckets of the current table head (0 when closed).
+func (r *Cache) VerifBuckets() int {
+	h := (*mHead)(atomic.LoadPointer(&r.mHead))
+	if h == nil {
+		return 0
+	}
+	return len(h.buckets)
+}
+
+// VerifResizing reports whether a predecessor table is still attached to the current head.
+func (r *Cache) VerifResizing() bool {
+	h := (*mHead)(atomic.LoadPointer(&r.mHead))
+	if h == nil {
+		return false
+	}
+	return atomic.LoadPointer(&h.predecessor) != nil
+}
+
+// VerifLRUEntry is one element of the LRU recency list.
+type VerifLRUEntry struct {
+	NS, Key uint64
+	Size    int
+}
+
+// VerifLRU returns capacity, used and the recency list (LEAST recently used first) of a
+// cacher created by NewLRU, all read under the lru lock; ok=false for any other cacher.
+func VerifLRU(c Cacher) (capacity, used int, order []VerifLRUEntry, ok bool) {
+	l, isLRU := c.(*lru)
+	if !isLRU {
+		return
+	}
+	l.mu.Lock()
+	defer l.mu.Unlock()
+	for rn := l.recent.prev; rn != nil && rn != &l.recent; rn = rn.prev {
+		order = append(order, VerifLRUEntry{NS: rn.n.ns, Key: rn.n.key, Size: rn.n.Size()})
+	}
+	return l.capacity, l.used, order, true
+}
+
+// VerifConsts exposes the table-size thresholds.
+func VerifConsts() (initialSize, overflowThreshold, overflowGrowThreshold int) {
+	return mInitialSize, mOverflowThreshold, mOverflowGrowThreshold
+}
